@@ -580,6 +580,42 @@ def rsa_short_private_members(ctx, rng):
                     ctx.violation("rsa-short-member-reimport", f"the private JWK exported for an RSA key with short {short} does not import as the same key: {back.exc!r}", case)
 
 
+def pem_label_variants(ctx, rng):
+    """PEM texts of one key under every label its reader knows: certificates as `CERTIFICATE` and as the legacy `X509 CERTIFICATE` (RFC 7468, 5.3), with text in
+    front, with CRLF line ends - the key that comes out is the key that went in"""
+    import datetime
+    from cryptography import x509
+    from cryptography.x509.oid import NameOID
+    from cryptography.hazmat.primitives import hashes, serialization as ser
+    from ..keystrata import numbers_of_native
+    j = J.load()
+    for kind in ("RSA:2048", "EC:P-256", "EC:P-384", "OKP:Ed25519"):
+        jwk = K.new_jwk(kind, None)
+        native = gen.native_key(jwk, True)
+        name = x509.Name([x509.NameAttribute(NameOID.COMMON_NAME, "c11")])
+        cert = (x509.CertificateBuilder().subject_name(name).issuer_name(name).public_key(native.public_key()).serial_number(7)
+                .not_valid_before(datetime.datetime(2024, 1, 1)).not_valid_after(datetime.datetime(2034, 1, 1))
+                .sign(native, None if kind.startswith("OKP") else hashes.SHA256()))
+        pem = cert.public_bytes(ser.Encoding.PEM)
+        want = numbers_of_native(native.public_key())
+        variants = [("CERTIFICATE", pem), ("X509 CERTIFICATE", pem.replace(b"BEGIN CERTIFICATE", b"BEGIN X509 CERTIFICATE").replace(b"END CERTIFICATE", b"END X509 CERTIFICATE")),
+                    ("CERTIFICATE, CRLF", pem.replace(b"\n", b"\r\n")), ("CERTIFICATE after text", b"subject=/CN=c11\nissuer=/CN=c11\n" + pem),
+                    ("X509 CERTIFICATE after text", b"subject=/CN=c11\n" + pem.replace(b"BEGIN CERTIFICATE", b"BEGIN X509 CERTIFICATE").replace(b"END CERTIFICATE", b"END X509 CERTIFICATE"))]
+        cls = K.cls_of(jwk["kty"])
+        for label, text in variants:
+            for as_ in ("bytes", "str"):
+                ctx.ev()
+                k = call(cls.import_key, text if as_ == "bytes" else text.decode())
+                ctx.count("pem_label_variants")
+                ctx.nontrivial(("pem-label", kind, label, as_))
+                ctx.cell("pem-label", kind, label)
+                case = {"pem_label_variants": True, "kind": kind, "label": label, "as": as_}
+                if not k.ok:
+                    ctx.violation(f"import-fails:pem-label:{label.split(',')[0].split(' after')[0]}", f"{kind}: PEM certificate under the label {label!r} ({as_}) is refused: {k.exc!r}", case)
+                elif numbers_of_native(k.value.raw_value) != want and {m: v for m, v in numbers_of_native(k.value.raw_value).items() if m in want} != want:
+                    ctx.violation("import-other-key:pem-label", f"{kind}: PEM certificate under the label {label!r} imports as another key", case)
+
+
 def run_shard(ctx):
     J.load()
     rng = ctx.rng
@@ -591,6 +627,8 @@ def run_shard(ctx):
         oct_secrets_that_look_like_something(ctx, rng)
     if ctx.shard == 7:
         rsa_short_private_members(ctx, rng)
+    if ctx.shard == 8:
+        pem_label_variants(ctx, rng)
     kinds = list(K.KINDS) + list(K.UNUSUAL_RSA)
     if ctx.tier == "thorough":
         kinds += ["RSA:3072"] + (["RSA:4096"] if ctx.shard == 0 else [])
